@@ -14,6 +14,7 @@ From Coq Require Import List.
 Import ListNotations.
 From BD.Agent Require Import Run RunProofs.
 From BD.Sched Require Import Model Proofs ProofsFinal Examples.
+From BD.Sched Require Import ProofsOnce.
 
 (* In every reachable state (stopped or not): a step's executions never exceed retryCount + 1, and retryCount never
    exceeds the retry limit - so never more than limit + 1 executions. *)
@@ -43,6 +44,15 @@ Theorem C03_exact : forall c : cfg, norepeat c ->
   (runnable c s i = false -> att (nd s i) = 0).
 Proof. exact exact_attempts. Qed.
 Print Assumptions C03_exact.
+
+(* The first sentence read literally: without a retryPolicy (limit 0) a runnable step is executed exactly once (and its
+   retry count is 0), a step that is not runnable never.  (Met by step e of the mixed run below: limit 0, runnable, 1 attempt.) *)
+Theorem C03_exactly_once : forall c : cfg, norepeat c ->
+  forall s, Reach c s -> quiet s -> pc s = LDone -> dry c = false -> forall i, i < nsteps c ->
+  rlimit (steps c i) = 0 ->
+  (runnable c s i = true -> att (nd s i) = 1 /\ rc (nd s i) = 0) /\ (runnable c s i = false -> att (nd s i) = 0).
+Proof. exact exactly_once. Qed.
+Print Assumptions C03_exactly_once.
 
 (* Dry run: no execution of the scheduler model contains the start of a step command or of a handler command ... *)
 Theorem C03_dry : forall c : cfg, dry c = true -> forall ls s s', run c s ls = Some s' ->
